@@ -316,7 +316,7 @@ def d3_columns(ctx):
             ok = full_rows and okc and okf and loc_name(r.value) == "chunk"
             detail = f"writes {src(r)} to {src(c.args[0]) if c.args else '?'} ({src(owner) if owner is not None else '?'}[{rec['key']!r}])"
     if not ok:
-        batched = _batched_split(fi)
+        batched = _batched_split(fi) or _gathered_blocks_split(fi)
         if batched is not None:
             verdict, why, node = batched
             if verdict == "unknown":
@@ -391,6 +391,73 @@ def _batched_split(fi):
     return None
 
 
+def _gathered_blocks_split(fi):
+    """`frame = np.take(chunk, concatenate([chns of every shank]), axis=1)` (or chunk[:, concatenate(..)]) written back as adjacent column blocks
+    frame[:, B[k]:B[k + 1]] with B = cumsum([0] + [sizes of the same lists]) and k enumerating the same mapping: block k is chunk[:, chns of shank k].
+    -> (verdict, explanation, node) or None when this idiom is not present."""
+    from sa.common import expand_deep
+    du = DefUse(fi.node)
+    for c in find(fi.node, ast.Call):
+        if call_name(c) != "tofile" or not isinstance(c.func, ast.Attribute):
+            continue
+        r = c.func.value
+        if not (isinstance(r, ast.Subscript) and isinstance(r.slice, ast.Tuple) and len(r.slice.elts) == 2 and isinstance(r.slice.elts[1], ast.Slice)):
+            continue
+        cs = r.slice.elts[1]
+        lo, hi = (expand_deep(du, cs.lower, c) if cs.lower is not None else None), (expand_deep(du, cs.upper, c) if cs.upper is not None else None)
+        if not (isinstance(lo, ast.Subscript) and isinstance(hi, ast.Subscript) and norm(lo.value) == norm(hi.value)):
+            continue
+        B = lo.value
+        k = lo.slice
+        if not (isinstance(hi.slice, ast.BinOp) and isinstance(hi.slice.op, ast.Add) and norm(hi.slice.left) == norm(k) and const_value(hi.slice.right) == (True, 1)):
+            return "unknown", f"block bounds `{src(cs)[:80]}` are not B[k]:B[k + 1]", c
+        # the frame
+        frame = r.value
+        fds = du.reaching(loc_name(frame), c) if loc_name(frame) else []
+        gather = None
+        for d in fds:
+            v = expand_deep(du, d.value, d.stmt, keep=(loc_name(frame),)) if d.value is not None else None
+            if isinstance(v, ast.Call) and call_name(v) == "take" and len(v.args) >= 2 and const_value(kwarg(v, "axis")) in ((True, 1), (True, -1)) and loc_name(v.args[0]) == "chunk":
+                gather = v.args[1]
+            elif isinstance(v, ast.Subscript) and isinstance(v.slice, ast.Tuple) and len(v.slice.elts) == 2 and loc_name(v.value) == "chunk":
+                gather = v.slice.elts[1]
+        if gather is None:
+            return None
+        if not (isinstance(gather, ast.Call) and call_name(gather) in ("concatenate", "hstack") and gather.args):
+            return "unknown", f"columns are gathered with `{src(gather)[:80]}`", c
+        lists = gather.args[0]
+        if not (isinstance(lists, (ast.ListComp, ast.GeneratorExp)) and len(lists.generators) == 1 and "chns" in src(lists.elt)):
+            return "unknown", f"gathered columns `{src(lists)[:80]}` are not the shanks' chns", c
+        over = lists.generators[0].iter
+        # B = cumsum([0] + [size of each list])
+        okB = isinstance(B, ast.Call) and call_name(B) == "cumsum" and B.args and isinstance(B.args[0], ast.BinOp) and isinstance(B.args[0].op, ast.Add) \
+            and isinstance(B.args[0].left, ast.List) and len(B.args[0].left.elts) == 1 and const_value(B.args[0].left.elts[0]) == (True, 0) \
+            and isinstance(B.args[0].right, (ast.ListComp,)) and any(t in src(B.args[0].right.elt) for t in (".size", "len(", ".shape"))
+        if okB:
+            sz = B.args[0].right
+            it_sz = sz.generators[0].iter
+            # sizes are taken over the same lists: either the same comprehension source, or a comprehension over the list of chns
+            okB = norm(it_sz) == norm(over) or norm(it_sz) == norm(lists) or ("chns" in src(it_sz) and norm(getattr(it_sz, "generators", [ast.comprehension(iter=ast.Constant(0))])[0].iter) == norm(over))
+        if not okB:
+            return "unknown", f"block bounds `{src(B)[:80]}` are not the cumulative sizes of the gathered lists", c
+        # k enumerates the same mapping the lists were taken from, and the file belongs to the entry of that position
+        par = None
+        for st in ast.walk(fi.node):
+            if isinstance(st, ast.For) and any(x is c for x in ast.walk(st)):
+                par = st
+        if par is None or not (isinstance(par.iter, ast.Call) and call_name(par.iter) == "enumerate" and isinstance(par.target, ast.Tuple) and len(par.target.elts) == 2
+                               and loc_name(par.target.elts[0]) == loc_name(k)):
+            return "unknown", "blocks are not enumerated together with the shanks", c
+        m1 = par.iter.args[0]
+        base1 = m1.func.value if isinstance(m1, ast.Call) and call_name(m1) in ("keys", "values", "items") else m1
+        base2 = over.func.value if isinstance(over, ast.Call) and call_name(over) in ("keys", "values", "items") else over
+        if norm(base1) != norm(base2):
+            return "bad", (f"the columns are gathered in the order of `{src(over)[:50]}` but the blocks are handed out in the order of `{src(m1)[:50]}`: "
+                           "a shank file can receive another shank's columns"), c
+        return "ok", "block k of the frame gathered with concatenate(chns) is chunk[:, chns of shank k]; bounds are the cumulative channel counts", c
+    return None
+
+
 def _scatter_pairs(repo, q, source_attr):
     fi = repo.fn(q)
     pairs = set()
@@ -419,12 +486,96 @@ def _scatter_pairs(repo, q, source_attr):
     return fi, pairs
 
 
+def _list_items(e):
+    """Items of a list expression built from comprehensions and literal lists joined with `+`: [("comp", elt, generators) | ("one", expr)]."""
+    if isinstance(e, ast.BinOp) and isinstance(e.op, ast.Add):
+        a, b = _list_items(e.left), _list_items(e.right)
+        return None if a is None or b is None else a + b
+    if isinstance(e, (ast.ListComp, ast.GeneratorExp)) and len(e.generators) == 1 and not e.generators[0].ifs:
+        return [("comp", e.elt, e.generators[0])]
+    if isinstance(e, (ast.List, ast.Tuple)):
+        return [("one", x) for x in e.elts]
+    return None
+
+
+def _colslice_text(sl):
+    t = src(sl).replace(" ", "")
+    return {"slice(None,-1,None)": ":-1", "slice(-1,None,None)": "-1:"}.get(t, t)
+
+
+def _stacked_reconstruction(f2):
+    """Reconstruction written as one gather: the shank files are stacked side by side, C = concatenate(parts, axis=1), the destination channel of
+    every stacked column is L = concatenate(labels), and the frame is take(C, argsort(L), axis=1) (the inverse permutation).
+    -> None (not this form) | (ok, pairs, node, explanation): pairs in the vocabulary of _scatter_pairs."""
+    from sa.common import expand_deep
+    du = DefUse(f2.node)
+    for c in find(f2.node, ast.Call):
+        if call_name(c) != "tofile" or not isinstance(c.func, ast.Attribute):
+            continue
+        data = expand_deep(du, c.func.value, c)
+        if isinstance(data, ast.Call) and call_name(data) == "take" and len(data.args) >= 2 and const_value(kwarg(data, "axis")) in ((True, 1), (True, -1)):
+            C, I = data.args[0], data.args[1]
+        elif isinstance(data, ast.Subscript) and isinstance(data.slice, ast.Tuple) and len(data.slice.elts) == 2 and isinstance(data.value, ast.Call):
+            C, I = data.value, data.slice.elts[1]
+        else:
+            continue
+        if not (isinstance(C, ast.Call) and call_name(C) in ("concatenate", "hstack") and C.args):
+            continue
+        inverse = isinstance(I, ast.Call) and call_name(I) == "argsort" and I.args
+        L = I.args[0] if inverse else I
+        if not (isinstance(L, ast.Call) and call_name(L) in ("concatenate", "hstack") and L.args):
+            return False, set(), c, f"column index `{src(I)[:80]}` is not built from the recorded channel lists"
+        parts, labels = _list_items(C.args[0]), _list_items(L.args[0])
+        if parts is None or labels is None or len(parts) != len(labels):
+            return False, set(), c, "stacked parts and their destination labels are not parallel lists"
+        pairs = set()
+        for (kp, *pp), (kl, *ll) in zip(parts, labels):
+            if kp != kl:
+                return False, set(), c, "stacked parts and their destination labels are not parallel lists"
+            pe, le = pp[0], ll[0]
+            # part: <raw of a shank>[rows?, S] ; label: <entry>["chns"][S']
+            if not (isinstance(pe, ast.Subscript) and isinstance(pe.slice, ast.Tuple) and len(pe.slice.elts) == 2):
+                return False, set(), c, f"stacked part `{src(pe)[:60]}` is not a column slice of a shank file"
+            if not (isinstance(le, ast.Subscript) and "chns" in src(le.value)):
+                return False, set(), c, f"label `{src(le)[:60]}` is not a slice of a recorded channel list"
+            sp, sl = _colslice_text(pe.slice.elts[1]), _colslice_text(le.slice)
+            if "_raw" not in src(pe) and not (kp == "comp" and "_raw" in src(pp[1].iter)):
+                return False, set(), c, f"stacked part `{src(pe)[:60]}` does not come from the raw samples of a shank file"
+            which = "all" if kp == "comp" else ("first" if ("[0]" in src(le.value) and "[0]" in src(pe.value)) else "?")
+            if kp == "comp" and norm(pp[1].iter) != norm(ll[1].iter) and "shank_info" not in (src(pp[1].iter) + src(ll[1].iter)):
+                return False, set(), c, "stacked parts and labels run over different collections"
+            pairs.add((which, sl, sp))
+        if not inverse:
+            return False, pairs, c, "gather-with-destination"   # D4b reports it
+        return True, pairs, c, "frame = take(stack, argsort(destination channels))"
+    return None
+
+
 def d4_scatter(ctx):
     ctx.rule("D4", "check_NP24 and NP2Reconstructor._reconstruct scatter with the same (target, source) column pairs; reconstruct path is integer-exact")
     repo = ctx.repo
     f1, p1 = _scatter_pairs(repo, CLS + ".check_NP24", "srs")
     f2, p2 = _scatter_pairs(repo, "neuropixel.NP2Reconstructor._reconstruct", "_raw")
     want = {("first", "", ":", "first:last"), ("other", "[:-1]", ":-1", "first:last")}
+    stacked = _stacked_reconstruction(f2) if not p2 else None
+    if stacked is not None:
+        oks, sp, node_, why_ = stacked
+        # all shanks without their sync + the sync of the first shank  ==  first shank whole, the others without their sync
+        want_st = {("all", ":-1", ":-1"), ("first", "-1:", "-1:")}
+        ctx.check(p1 == want, f1, f1.node, f"check pairs {sorted(p1, key=str)}", "verification reassembles: first shank all columns incl. sync, others without their sync",
+                  f"verification scatter is {sorted(p1, key=str)}; expected {sorted(want, key=str)}", key="check-pairs")
+        if why_ == "gather-with-destination":
+            ctx.note("reconstruction is a single gather with the destination channels: decided by D4b")
+            return
+        ctx.check(oks and sp == want_st, f2, node_, f"stacked reconstruction {sorted(sp)}: {why_}", "reconstruction places exactly the columns the verified reassembly places (stack + inverse permutation)",
+                  f"stacked reconstruction pairs {sorted(sp)} ({why_}); expected every shank without its sync plus the sync of the first shank, put in place with argsort of the destination channels",
+                  key="recon-pairs", name_free=True)
+        rawp = "._raw[" in src(node_) or all("_raw" in src(x) for x in [node_])
+        wgs = [c for c in find(f2.node, ast.Call) if call_name(c) == "WindowGenerator"]
+        okw = bool(wgs) and len(wgs[0].args) >= 3 and isinstance(wgs[0].args[2], ast.Constant) and wgs[0].args[2].value == 0
+        ctx.check(okw, f2, wgs[0] if wgs else f2.node, wgs[0] if wgs else "WindowGenerator", "reconstruction windows do not overlap (each sample written once)",
+                  "reconstruction windows overlap: samples would be written twice", key="recon-overlap")
+        return
     ctx.check(p1 == want, f1, f1.node, f"check pairs {sorted(p1, key=str)}", "verification reassembles: first shank all columns incl. sync, others without their sync",
               f"verification scatter is {sorted(p1, key=str)}; expected {sorted(want, key=str)}", key="check-pairs")
     ctx.check(p2 == want, f2, f2.node, f"reconstruct pairs {sorted(p2, key=str)}", "reconstruction scatters exactly like the verified reassembly",
@@ -465,16 +616,29 @@ def d4b_no_gather_by_destination(ctx):
     fi = repo.fn(clsq + "._reconstruct")
     du = DefUse(fi.node)
     n = 0
+    from sa.common import expand_deep
+    gathers = []
     for sub in find(fi.node, ast.Subscript):
-        if not isinstance(sub.slice, ast.Tuple) or len(sub.slice.elts) != 2:
+        if isinstance(sub.slice, ast.Tuple) and len(sub.slice.elts) == 2:
+            gathers.append((sub, sub.slice.elts[1]))
+    for c in find(fi.node, ast.Call):
+        # np.take(X, idx, axis=1) / X.take(idx, axis=1) is the gather X[:, idx]
+        if call_name(c) == "take" and kwarg(c, "axis") is not None and const_value(kwarg(c, "axis")) in ((True, 1), (True, -1)):
+            idx = c.args[1] if (isinstance(c.func, ast.Attribute) and loc_name(c.func.value) in ("np", "numpy") and len(c.args) >= 2) else (c.args[0] if c.args else None)
+            if idx is not None:
+                gathers.append((c, idx))
+    for sub, col in gathers:
+        ct = src(expand_deep(du, col, sub))
+        mentions = "'chns'" in ct or '"chns"' in ct or any(a in ct for a in derived_attrs)
+        if mentions and "argsort(" in ct and not isinstance(getattr(sub, "ctx", None), ast.Store):
+            n += 1
+            ctx.ok(fi, sub, sub, "columns are gathered with the inverse (argsort) of the destination channels", key="gather-inverse:" + norm(sub)[:60])
             continue
-        col = sub.slice.elts[1]
-        ct = src(expand_name(du, col, sub)) if isinstance(col, ast.Name) else src(col)
-        uses = ("'chns'" in ct or '"chns"' in ct or any(a in ct for a in derived_attrs)) and "argsort" not in ct
+        uses = mentions and "argsort" not in ct
         if not uses:
             continue
         n += 1
-        ctx.check(isinstance(sub.ctx, ast.Store), fi, sub, sub, "destination channel indices are used to scatter (assignment target)",
+        ctx.check(isinstance(getattr(sub, "ctx", None), ast.Store), fi, sub, sub, "destination channel indices are used to scatter (assignment target)",
                   f"`{src(sub)[:80]}` GATHERS columns with the list of destination channels: that applies the permutation where its inverse is needed - the reconstructed "
                   "binary has permuted columns for every shank map whose stacked channel order is not its own inverse", key="gather:" + norm(sub)[:60], name_free=True)
     if n == 0:
